@@ -44,7 +44,7 @@ var genericResp = []byte("HTTP/1.1 200 OK\r\nContent-Length: 7\r\nX-Generic: yes
 
 type Scenario struct {
 	ID     int    `json:"id"`
-	Kind   string `json:"kind"`             // truncate | garbage | dial | client | mitm
+	Kind   string `json:"kind"`             // truncate | garbage | dial | client | mitm | upload | keepopen | downstream | coding (round8b.go)
 	Follow string `json:"follow,omitempty"` // kind mitm: what the client sends after the 200 to its CONNECT
 	Script string `json:"script,omitempty"` // response script / corpus entry name
 	K      int    `json:"k"`                // bytes of the script the origin writes before it closes (origin kinds); prefix length (client kind, -1: corruption)
@@ -439,6 +439,9 @@ func scenarios(tier string, keep func(id int) bool) (map[int]*Scenario, int, map
 	// 7. round 7: framed answers of a downstream proxy to CONNECT cut at every offset (round7.go) and header
 	// block shapes on the HTTP/2 path of an intercepted connection (h2relay.go)
 	round7Scenarios(tier, add)
+	// 8. round 8b: complete, well-framed origin answers whose body is not what their Content-Encoding declares,
+	// through every logger configuration (round8b.go)
+	round8bScenarios(tier, add)
 	// 5b (thorough). every two-byte corruption window of the same requests: both bytes replaced by every pair
 	// over {NUL, LF, CR, SP, 0xff}
 	if tier == "thorough" {
@@ -660,6 +663,11 @@ func stockModifier(name string, rec *recorder) (martian.RequestModifier, martian
 		l := martianlog.NewLogger()
 		l.SetLogFunc(func(string) {})
 		return l, chained{l, rec}
+	case "martianlog_decode":
+		l := martianlog.NewLogger()
+		l.SetDecode(true)
+		l.SetLogFunc(func(string) {})
+		return l, chained{l, rec}
 	case "marbl":
 		// one stream (and its goroutine) per process, written to nowhere
 		marblOnce.Do(func() { marblMod = marbl.NewModifier(discard{}) })
@@ -810,6 +818,12 @@ func runScenario(s *Scenario, kind string, quiet time.Duration) *runOut {
 			sc.wire, sc.body = sc.wire[:sc.headLen], nil
 		}
 		faultBytes = sc.wire[:s.K]
+	case "coding":
+		sc, isScript = lookupCodingScript(s.Script)
+		if s.Method == "HEAD" {
+			sc.wire, sc.body = sc.wire[:sc.headLen], nil
+		}
+		faultBytes = sc.wire[:s.K]
 	case "garbage":
 		faultBytes = lookupCorpus(oCorpus, s.Script)[:s.K]
 	case "dial":
@@ -869,6 +883,10 @@ func runScenario(s *Scenario, kind string, quiet time.Duration) *runOut {
 			mu.Unlock()
 			if first && s.Kind == "keepopen" {
 				return h1harness.Action{Write: [][]byte{faultBytes}} // complete response, unsolicited tail, connection stays open
+			}
+			if first && s.Kind == "coding" && s.K == len(sc.wire) {
+				// a complete answer of a regular origin: the connection stays open unless the framing ends it
+				return h1harness.Action{Write: [][]byte{sc.wire}, Close: sc.closes}
 			}
 			if first && s.Kind != "dial" {
 				if s.Split > 0 && s.Split < len(faultBytes) {
@@ -949,6 +967,9 @@ func runScenario(s *Scenario, kind string, quiet time.Duration) *runOut {
 		default:
 			class = "origin_truncated_in_body"
 		}
+	case "coding":
+		headIncomplete = s.K < sc.headLen
+		class = codingClass(s, len(sc.wire))
 	case "garbage":
 		headIncomplete = !h1harness.HasBlankLine(faultBytes)
 		if headIncomplete {
@@ -1153,7 +1174,7 @@ func runScenario(s *Scenario, kind string, quiet time.Duration) *runOut {
 			report("conn_not_closed_after_close_request", "request 1 carried Connection: close; after its response the connection ended as: "+endB)
 		}
 	}
-	if isScript && !is502 && !sc.closes && s.Kind == "truncate" && s.K == len(sc.wire) {
+	if isScript && !is502 && !sc.closes && (s.Kind == "truncate" || s.Kind == "coding") && s.K == len(sc.wire) {
 		resp1ClosesConn = false // a complete keep-alive response: the connection must stay usable
 	}
 	if complete && !resp1ClosesConn {
@@ -1541,6 +1562,13 @@ func runCase(s *Scenario) *h1harness.CaseResult {
 		res.C["r7_downstream_scenarios"]++
 		res.K["r7_downstream_outcomes"] = []string{o.outcome}
 	}
+	if s.Kind == "coding" {
+		res.C["r8b_coding_scenarios"]++
+		if !codingMatches(s.Script) {
+			res.C["r8b_coding_body_contradicts_declared_coding"]++
+		}
+		res.K["r8b_coding_outcomes"] = []string{s.Mod + "|" + s.Method + "|" + s.Script[strings.LastIndexByte(s.Script, '/')+1:] + ": " + o.outcome}
+	}
 	var syms []string
 	seen := map[string]bool{}
 	for _, f := range o.findings {
@@ -1623,6 +1651,9 @@ func main() {
 		if s.Kind == "mitm" {
 			cls = "mitm_client_stream:" + mitmClass(s)
 		}
+		if s.Kind == "coding" {
+			cls = codingCrashClass(s)
+		}
 		return cls + ":crash", fmt.Sprintf("scenario %s terminates the proxy process: %s", describe(s), tail(stderr, 1500)), s
 	})
 	if agg.EngineErr != "" {
@@ -1647,7 +1678,7 @@ func main() {
 	rep.Coverage["distinct_nontrivial"] = rep.Counter("nontrivial")
 	rep.Coverage["distinct_outcomes"] = len(agg.Keys["outcomes"])
 	rep.Coverage["exhaustive"] = rep.Incomplete == ""
-	rep.Coverage["rule"] = "modifier configurations {none, har.NewLogger(), martianlog.NewLogger(), marbl.NewModifier} as request+response modifier for the truncation family; truncate: response script x client protocol x {fresh, reused upstream connection} x {GET, POST} x every offset k in 0..len(script) (origin writes k bytes, closes); dial: first dial fails with {refused, timeout (net.Error), io.EOF, io.ErrClosedPipe, io.ErrUnexpectedEOF, generic error} on the plain-HTTP path (GET/POST, the transport dials) and on the CONNECT path (the proxy's connect() dials), or is accepted-then-closed, x second request afterwards / already pipelined; the failing dial returns next to its error {untyped nil, typed-nil *tls.Conn, typed-nil *net.TCPConn, an already closed connection}; garbage: 20 non-HTTP/malformed origin answers and 60 answers with a valid status line followed by a header line carrying one of {NUL, SOH, BEL, BS, ESC, DEL, 0x80, 0xff, bare CR, TAB} at the start/middle/end of its name or value, x every prefix (oversized header: 3 offsets); client: 35 client byte streams x every prefix (3 oversized ones: listed offsets) and every single-byte corruption (replacement set) of 3 valid requests; mitm: proxy with SetMITM, 23 CONNECT request-line/Host shapes x 9 continuations after the 200 (ClientHello with SNI / without SNI / TLS 1.2 without SNI, plaintext request, two kinds of garbage, a lone 0x16, close, close without reading) and a no-SNI ClientHello cut at every offset, each followed by a marker request on a fresh connection; every other scenario continues with a well-formed request for a marker response on the same client connection; round 7: downstream r7_*: 8 framings of the downstream proxy's answer to CONNECT (Content-Length / +Connection: close / chunked / chunked+trailer / close-delimited refusals, 2xx + early tunnel bytes) x every offset, body judged; h2_relay: MITM + h2.Config with a scripted raw-frame HTTP/2 origin and client, the header block under test at 5 positions (request HEADERS, request trailers, response HEADERS, response trailers, PUSH_PROMISE) x every sequence of <= 2 (thorough 3) HPACK atoms out of 7 x {bare, with pseudo-header fields}, x every HEADERS/CONTINUATION cut offset (quick: 4), x block sizes around 16384 and 32768 with/without priority, and the origin's h2 answer cut at every byte offset. Non-trivial: the fault happens after at least one byte (k > 0), or is a dial fault or a corruption."
+	rep.Coverage["rule"] = "modifier configurations {none, har.NewLogger(), martianlog.NewLogger(), marbl.NewModifier} as request+response modifier for the truncation family; truncate: response script x client protocol x {fresh, reused upstream connection} x {GET, POST} x every offset k in 0..len(script) (origin writes k bytes, closes); dial: first dial fails with {refused, timeout (net.Error), io.EOF, io.ErrClosedPipe, io.ErrUnexpectedEOF, generic error} on the plain-HTTP path (GET/POST, the transport dials) and on the CONNECT path (the proxy's connect() dials), or is accepted-then-closed, x second request afterwards / already pipelined; the failing dial returns next to its error {untyped nil, typed-nil *tls.Conn, typed-nil *net.TCPConn, an already closed connection}; garbage: 20 non-HTTP/malformed origin answers and 60 answers with a valid status line followed by a header line carrying one of {NUL, SOH, BEL, BS, ESC, DEL, 0x80, 0xff, bare CR, TAB} at the start/middle/end of its name or value, x every prefix (oversized header: 3 offsets); client: 35 client byte streams x every prefix (3 oversized ones: listed offsets) and every single-byte corruption (replacement set) of 3 valid requests; mitm: proxy with SetMITM, 23 CONNECT request-line/Host shapes x 9 continuations after the 200 (ClientHello with SNI / without SNI / TLS 1.2 without SNI, plaintext request, two kinds of garbage, a lone 0x16, close, close without reading) and a no-SNI ClientHello cut at every offset, each followed by a marker request on a fresh connection; every other scenario continues with a well-formed request for a marker response on the same client connection; round 7: downstream r7_*: 8 framings of the downstream proxy's answer to CONNECT (Content-Length / +Connection: close / chunked / chunked+trailer / close-delimited refusals, 2xx + early tunnel bytes) x every offset, body judged; h2_relay: MITM + h2.Config with a scripted raw-frame HTTP/2 origin and client, the header block under test at 5 positions (request HEADERS, request trailers, response HEADERS, response trailers, PUSH_PROMISE) x every sequence of <= 2 (thorough 3) HPACK atoms out of 7 x {bare, with pseudo-header fields}, x every HEADERS/CONTINUATION cut offset (quick: 4), x block sizes around 16384 and 32768 with/without priority, and the origin's h2 answer cut at every byte offset; round 8b: coding: complete well-framed origin answers whose body contradicts the declared Content-Encoding: {gzip, deflate, br, x-unknown} x body {plain text, gzip cut in half, gzip with wrong CRC-32, empty, correct gzip (control)} x framing {Content-Length, chunked, close-delimited} x configuration {none, har.NewLogger() with body logging, martianlog.NewLogger(), martianlog + SetDecode(true), marbl} x request 1 {GET, HEAD} (thorough: + POST, x {fresh, reused}, and the answer cut at every body offset). Non-trivial: the fault happens after at least one byte (k > 0), or is a dial fault or a corruption."
 	rep.Coverage["bounds"] = fmt.Sprintf("tier %s: %d scenarios %v; scripts %d; one client connection (+1 fresh probe connection for client streams); loopback-TCP re-run of every 9th (quick) / 197th (thorough) scenario", tier, total, fams, len(scripts(tier)))
 	rep.Assumptions = []string{
 		"an origin that stalls without closing is not modelled (would need the proxy's 5-minute timeout)",
